@@ -56,6 +56,8 @@ func (e ev) String() string {
 		return fmt.Sprintf("start(k%d,cur)+put", e.Key)
 	case "tick":
 		return "clock+1h"
+	case "ticklist":
+		return "clock+30min+0.5ms,ListKeys,clock+30min"
 	}
 	return fmt.Sprintf("%s(k%d)", e.K, e.Key)
 }
@@ -74,19 +76,23 @@ var eventAlphabet = []ev{
 	{K: "cancelput", I: 0}, {K: "cancelput", I: 1}, {K: "startput", Key: 1},
 	// expiry: a write with an expiry 30 virtual minutes ahead, and the clock moving one hour
 	{K: "putexp", Key: 1}, {K: "tick"},
+	// the same hour, but somebody lists the keys half a millisecond after the first 30 minutes (i.e. right after
+	// records written with an expiry at the start of the hour have expired, before the waiters' own wake-up)
+	{K: "ticklist"},
 	// a write whose record is already expired: the key is absent afterwards, parked waiters must be told
 	{K: "putdead", Key: 1},
 }
 
 type swaiter struct {
-	key     string
-	ver     string
-	cancel  context.CancelFunc
-	res     chan error
-	done    bool // model: has it returned?
-	expect  string
-	alt     string // second legal status when two things happened without quiescence in between
-	started int
+	key      string
+	ver      string
+	cancel   context.CancelFunc
+	res      chan error
+	done     bool // model: has it returned?
+	expect   string
+	alt      string // second legal status when two things happened without quiescence in between
+	started  int
+	deadline time.Time // zero: none
 }
 
 type vio struct{ sig, what string }
@@ -147,7 +153,7 @@ func runScript(sc script, visit func(string)) *vio {
 					got = "nil"
 				case errors.Is(err, gerrors.ErrNotExist):
 					got = "ErrNotExist"
-				case errors.Is(err, context.Canceled):
+				case errors.Is(err, context.Canceled), errors.Is(err, context.DeadlineExceeded):
 					got = "ctx"
 				default:
 					got = "other:" + err.Error()
@@ -222,12 +228,19 @@ func runScript(sc script, visit func(string)) *vio {
 				ver = "unknown-version"
 			}
 			ctx, cancel := context.WithCancel(bg)
-			if step%2 == 1 {
-				// every other waiter comes with a context deadline far beyond anything the script does (1000 virtual
-				// hours): it must behave like a waiter without one
+			var dl time.Time
+			switch step % 3 {
+			case 1:
+				// a context deadline far beyond anything the script does (1000 virtual hours): the waiter must
+				// behave like one without a deadline
 				ctx, cancel = context.WithDeadline(bg, time.Now().Add(1000*time.Hour))
+			case 2:
+				// a deadline 10 virtual minutes ahead: earlier than the expiry of any record written with one
+				// (30 minutes); it passes when the clock moves
+				dl = time.Now().Add(10 * time.Minute)
+				ctx, cancel = context.WithDeadline(bg, dl)
 			}
-			w := &swaiter{key: k, ver: ver, cancel: cancel, res: make(chan error, 1), started: n}
+			w := &swaiter{key: k, ver: ver, cancel: cancel, res: make(chan error, 1), started: n, deadline: dl}
 			n++
 			if v, ok := cur[k]; !ok {
 				w.expect = "ErrNotExist"
@@ -312,10 +325,35 @@ func runScript(sc script, visit func(string)) *vio {
 					w.expect = "ErrNotExist"
 				}
 			}
-		case "tick":
-			// the clock passes every pending expiry; the store is NOT touched (a Get would purge the record and
-			// notify on the waiters' behalf): whoever is parked on an expired key must come back by itself
-			time.Sleep(time.Hour)
+		case "tick", "ticklist":
+			// the clock passes every pending expiry and every short context deadline; the store is NOT touched (a
+			// Get would purge the record and notify on the waiters' behalf): whoever is parked on an expired key
+			// must come back by itself. ticklist: ListKeys (and nothing else) runs right after the first expiries.
+			if e.K == "ticklist" {
+				time.Sleep(30*time.Minute + 500*time.Microsecond)
+				it, err := s.ListKeys(bg, "*")
+				if err != nil {
+					cleanup()
+					return &vio{"inmem/ListKeys/error", err.Error()}
+				}
+				for it.HasNext() {
+					if _, ok := it.Next(); !ok {
+						break
+					}
+				}
+				_ = it.Close()
+				time.Sleep(30*time.Minute - 500*time.Microsecond)
+			} else {
+				time.Sleep(time.Hour)
+			}
+			// a parked waiter whose context deadline passes before its key expires gets the context's error
+			for _, w := range ws {
+				if w.expect == "parked" && !w.deadline.IsZero() && !w.deadline.After(time.Now()) {
+					if at, ok := expAt[w.key]; !ok || w.deadline.Before(at) {
+						w.expect = "ctx"
+					}
+				}
+			}
 			for key, at := range expAt {
 				if at.Before(time.Now()) {
 					if v, ok := cur[key]; ok {
@@ -1005,7 +1043,9 @@ func pollFault(nth int64) (sig, what, inconclusive string) {
 // afterwards a change wakes a waiter with a long deadline.
 func deadlineWait(backend string, s kvs.Storage, deadlines []time.Duration) (sig, what string, inconclusive string) {
 	bg := context.Background()
-	r0, err := s.Put(bg, kvs.Record{Key: "dl", Value: []byte("0")})
+	// the record carries an expiry an hour away: later than every context deadline used here
+	exp := time.Now().Add(time.Hour)
+	r0, err := s.Put(bg, kvs.Record{Key: "dl", Value: []byte("0"), ExpiresAt: &exp})
 	if err != nil {
 		return "", "", backend + " Put: " + err.Error()
 	}
@@ -1036,8 +1076,10 @@ func deadlineWait(backend string, s kvs.Storage, deadlines []time.Duration) (sig
 			case r.alive:
 				return backend + "/wait/context-error-while-context-alive", fmt.Sprintf("a waiter with a %v deadline on a quiet key returned %v after %v although its context was not done at that moment", r.d, r.err, r.took), ""
 			}
-		case <-time.After(120 * time.Second):
-			return "", "", "deadline waiters did not return in 120 s"
+		case <-time.After(30 * time.Second):
+			// every deadline is below half a second: 30 s later (healthy: microseconds after the deadline) a
+			// waiter that has not come back does not return "promptly once the context is done"
+			return backend + "/wait/not-returned-after-context-deadline", fmt.Sprintf("waiters with context deadlines of %v on a quiet key (the record's own expiry is an hour away): 30 s after the start not all of them have returned", deadlines), ""
 		}
 	}
 	return "", "", ""
@@ -1054,7 +1096,7 @@ func TestCheck(t *testing.T) {
 		}
 		run.Finish(t)
 	})
-	run.Rule("scripted: every legal script to the depth bound over {start waiter (key1 cur/stale/unknown, key2 cur; <=3 alive), cancel waiter i, cancel+Put+newcomer without quiescence in between, start+Put without quiescence, Put k1/k2, PutMany k1 / k1+k2, CAS ok, CAS conflict, Delete k1/k2, Create, Put with an expiry, Put of an already expired record, clock +1 h (nobody touches the store)}; every other waiter carries a context deadline 1000 virtual hours ahead; expiry edge (inmem, real clock): trains of 12 waiters, one key each, started within microseconds around the expiry of their records - 25 ms later all have returned and the waiter table is empty (this part runs as a second pass built without the race detector, whose slow-down hides such windows); Redis poll fault: the 1st/2nd/5th/9th poll of a parked waiter is answered with a server error - the waiter may report it or go on, but must not return nil, ErrNotExist or the context's error from 2 initial states, in a synctest bubble; after EVERY event quiescence, then each waiter must be exactly parked / nil / ErrNotExist / ctx error per model and the waiter table must equal the parked set; free-running: 3 writers + 6 waiters + cancellers on 2 keys per round, waiter returns checked by porcupine as read-like operations, final mutation must release all; burst rounds: 4-16 waiters on the current version start together with one mutation and must all return; Redis long-park: a waiter parked 3.2 s (6.5 s thorough) must notice the change within 1 s. distinct = distinct (event kind, parked-waiter multiset, number of present keys) classes observed at quiescent points + distinct free-running rounds")
+	run.Rule("scripted: every legal script to the depth bound over {start waiter (key1 cur/stale/unknown, key2 cur; <=3 alive), cancel waiter i, cancel+Put+newcomer without quiescence in between, start+Put without quiescence, Put k1/k2, PutMany k1 / k1+k2, CAS ok, CAS conflict, Delete k1/k2, Create, Put with an expiry, Put of an already expired record, clock +1 h (nobody touches the store)}; one waiter in three carries a context deadline 1000 virtual hours ahead, one in three a deadline 10 virtual minutes ahead (earlier than any record expiry: it gets the context's error when the clock moves); event ticklist: ListKeys runs half a millisecond after the first expiries of the hour; expiry edge (inmem, real clock): trains of 12 waiters, one key each, started within microseconds around the expiry of their records - 25 ms later all have returned and the waiter table is empty (this part runs as a second pass built without the race detector, whose slow-down hides such windows); Redis poll fault: the 1st/2nd/5th/9th poll of a parked waiter is answered with a server error - the waiter may report it or go on, but must not return nil, ErrNotExist or the context's error from 2 initial states, in a synctest bubble; after EVERY event quiescence, then each waiter must be exactly parked / nil / ErrNotExist / ctx error per model and the waiter table must equal the parked set; free-running: 3 writers + 6 waiters + cancellers on 2 keys per round, waiter returns checked by porcupine as read-like operations, final mutation must release all; burst rounds: 4-16 waiters on the current version start together with one mutation and must all return; Redis long-park: a waiter parked 3.2 s (6.5 s thorough) must notice the change within 1 s. distinct = distinct (event kind, parked-waiter multiset, number of present keys) classes observed at quiescent points + distinct free-running rounds")
 	run.Assume("scripted part: virtual time that only moves at the explicit clock event")
 	run.Assume("free-running 'never misses' uses a 20 s watchdog against a healthy release time of microseconds (inmem) / <=100 ms (Redis polling)")
 
@@ -1089,7 +1131,9 @@ func TestCheck(t *testing.T) {
 	depth := run.Pick(4, 5)
 	run.Note("script_depth", depth)
 	// one bubble per process: the library's global version generator (a mutex) must not be shared between bubbles
-	for c := range shard.Run(run, "TestChild", "scripted", runtime.NumCPU(), 40*time.Minute) {
+	// a child of the quick tier needs seconds; one that does not finish (a goroutine spinning at one instant of the
+	// frozen clock keeps the bubble from ever becoming idle) is given up after 150 s: inconclusive for its part
+	for c := range shard.Run(run, "TestChild", "scripted", runtime.NumCPU(), time.Duration(run.Pick(150, 2400))*time.Second) {
 		classes[c] = struct{}{}
 	}
 
